@@ -47,6 +47,39 @@ theorem clear_observationally_fresh (st : State) (c : Bool) (ops : List Op) :
     runOps (step st (.clear c)).1 ops = runOps (pristineOf st c) ops := by
   rw [clear_total, clear_pristine]
 
+/-- Histories compose: running `a ++ b` is running `a`, then `b` from the state `a` left. -/
+theorem runOps_append (st : State) (a b : List Op) :
+    runOps st (a ++ b) =
+      ((runOps (runOps st a).1 b).1, (runOps st a).2 ++ (runOps (runOps st a).1 b).2) := by
+  induction a generalizing st with
+  | nil => simp [runOps]
+  | cons op rest ih => simp [runOps, ih]
+
+/-- The property over whole histories: whatever was done before the clear (`before`: any operations,
+    failed ones included) and whatever is done after it (`after`), the clear itself succeeds and the
+    rest of the history runs exactly as from the pristine state with the registrations `before`
+    left — same final state, same observations. -/
+theorem clear_after_any_history (st₀ : State) (before after : List Op) (c : Bool) :
+    runOps st₀ (before ++ .clear c :: after) =
+      ((runOps (pristineOf (runOps st₀ before).1 c) after).1,
+       (runOps st₀ before).2 ++ .ok :: (runOps (pristineOf (runOps st₀ before).1 c) after).2) := by
+  rw [runOps_append]
+  simp [runOps, clear_total, clear_pristine]
+
+/-- Two histories that leave the same registrations (and constants, unless those are cleared too)
+    are indistinguishable after `clear_config`, whatever else they did. -/
+theorem clear_forgets_history (s₁ s₂ : State) (c : Bool) (after : List Op)
+    (hr : s₁.registry = s₂.registry) (hh : s₁.hooks = s₂.hooks) (hi : s₁.interactive = s₂.interactive)
+    (hc : c = false → s₁.constants = s₂.constants)
+    (hp : s₁.calls = s₂.calls ∧ s₁.constructed = s₂.constructed ∧ s₁.log = s₂.log) :
+    runOps (step s₁ (.clear c)).1 after = runOps (step s₂ (.clear c)).1 after := by
+  rw [clear_total, clear_total, clear_pristine, clear_pristine]
+  have : pristineOf s₁ c = pristineOf s₂ c := by
+    cases c
+    · simp [pristineOf, hr, hh, hi, hc rfl, hp.1, hp.2.1, hp.2.2]
+    · simp [pristineOf, hr, hh, hi, hp.1, hp.2.1, hp.2.2]
+  rw [this]
+
 theorem clear_idempotent (st : State) (c : Bool) : (st.clear c).clear c = st.clear c := by
   cases c <;> simp [State.clear]
 
